@@ -502,10 +502,12 @@ func (w *Writer) finishSection() error {
 			}
 		}
 	}
-	w.index = nil
 	if err := w.flushBlock(); err != nil {
 		return err
 	}
+	// flushBlock registers the block it wrote; the section is complete,
+	// so nothing may leak into the index of the next section.
+	w.index = nil
 
 	blockStats := w.getBlockStats(typ)
 	blockStats.IndexBlocks = w.Stats.idxStats.Blocks - before
